@@ -255,3 +255,63 @@ def run_idchars(chk, F, L, rid="R-IDCHARS"):
                "the scanner accepts %s in identifiers ({%s}) but the XML reader's name validator cannot: a name containing "
                "it is fine in an XTA file and `Invalid identifier` in the XML rendering of the same model" %
                (missing, nm), "%s:%s" % (roots[0]["file"], roots[0]["line"]))
+
+
+# ---------------------------------------------------------------------------------------------- R-DIAGPAIR
+# `$`-messages the XML reader raises on its own account that are about the XML carrier, not about the model: an XTA
+# text has no such element / attribute to be wrong about.  message -> why there is no XTA counterpart
+XML_ONLY_DIAGNOSTICS = {
+    "$Message_label_is_required": "LSC templates exist in XML only",
+    "$Update_label_is_required": "LSC templates exist in XML only",
+    "$Condition_label_is_required": "LSC templates exist in XML only",
+    "$Instance_name_is_required": "LSC instance lines exist in XML only",
+    "$Existential_charts_must_not_have_prechart": "LSC templates exist in XML only",
+    "$Missing_system_tag": "the <system> element; an XTA text without a system line is a syntax error of the grammar",
+    "$Missing_nta_or_project_tag": "the root element",
+    "$syntax_error: $unexpected $end": "an empty <system> element: the reader spells out the grammar's own message, "
+                                      "because bison has no position to attach to an empty block",
+}
+
+
+def run_diagpair(chk, F, G, rid="R-DIAGPAIR"):
+    """A diagnostic about the *model* that only one front end can raise makes the input format observable.  The XML
+    reader raises some messages itself, ahead of or instead of the builder (no <init>: $Missing_initial_location; a
+    name that is a keyword of the query language).  Each of them is either about the XML carrier (listed, with the
+    reason) or has to be raised on the XTA side as well: by a grammar action, or by builder code the grammar reaches."""
+    chk.rule(rid, "every `$` message that XMLReader raises on its own account is about the XML carrier (listed) or is also "
+                  "raised for XTA input: by an action of parser.y or by a builder callback")
+    own = {}
+    for fn in F.functions.values():
+        if not (fn.get("file") or "").endswith("src/xmlreader.cpp") or fn.get("body") is None:
+            continue
+        for x in walk(fn["body"]):
+            if x.get("k") == "construct" and (x.get("cls") or x.get("t") or "").endswith("TypeException"):
+                for y in walk(x):
+                    if y.get("k") == "str" and str(y.get("v", "")).startswith("$"):
+                        own.setdefault(y["v"], (fn["name"], x.get("l")))
+    if len(own) < 5:
+        raise AnalysisBroken("%s: only %d messages raised by the XML reader found" % (rid, len(own)))
+    # the XTA side: literals in grammar actions, and in the builder classes (any callback can be reached from XTA text)
+    xta = set()
+    for r in G.rules:
+        if r.action is not None:
+            for y in walk(r.action):
+                if y.get("k") == "str":
+                    xta.add(y.get("v"))
+    for fn in F.functions.values():
+        q = fn.get("q", "")
+        if fn.get("body") is not None and any(q.startswith("UTAP::%s::" % c) for c in
+                                              ("DocumentBuilder", "StatementBuilder", "ExpressionBuilder", "AbstractBuilder")):
+            for y in walk(fn["body"]):
+                if y.get("k") == "str":
+                    xta.add(y.get("v"))
+    for msg, (fname, line) in sorted(own.items()):
+        if msg in XML_ONLY_DIAGNOSTICS:
+            chk.ob(rid, "%s|xml-only" % msg, True, "", "/repo/src/xmlreader.cpp:%s" % line,
+                   sample="%s: listed - %s" % (msg, XML_ONLY_DIAGNOSTICS[msg][:60]))
+            continue
+        chk.ob(rid, msg, msg in xta,
+               "XMLReader::%s raises `%s` itself; nothing on the XTA side (grammar actions, builder callbacks) can raise "
+               "it: the same faulty model is rejected as XML and accepted, or rejected with another message, as XTA" %
+               (fname, msg), "/repo/src/xmlreader.cpp:%s" % line)
+    chk.analysed[rid] = {"reader_messages": len(own), "listed_xml_only": len([m for m in own if m in XML_ONLY_DIAGNOSTICS])}
